@@ -134,6 +134,11 @@ def run(ctx: evid.Ctx) -> None:
     ks = U.kinds(big=thorough, depth3=thorough)
     _STATE["kinds"] = ks
     ctx.note("reference_self_inverse_cases", selfcheck_reference(U.kinds()))
+    for m in U.big_messages():
+        ctx.add("states")
+        ctx.add("transitions", 2)
+        for v in check_one(m):
+            ctx.violation(v[0], v[1], {"msg": A.src(m) if len(A.src(m)) < 2000 else None, "big": repr(type(m).__name__)})
     jobs = U.jobs(ks, d)
     jobs.sort(key=lambda j: -U.job_size(ks, j))
     for loc in par.pmap(_work, jobs, ctx.seed):
@@ -153,6 +158,9 @@ def run(ctx: evid.Ctx) -> None:
 
 
 def replay(case: t.Dict[str, t.Any], key: t.Optional[str] = None) -> t.Tuple[bool, str]:
+    if case.get("msg") is None:
+        hits = [v for m in U.big_messages() for v in check_one(m) if key is None or v[0] == key]
+        return (not hits), "\n".join(f"  {k}: {w}" for k, w in hits) or "64 KiB cases encode to RFC 4511 BER"
     m = A.unsrc(case["msg"])
     r = [v for v in check_one(m) if key is None or v[0] == key]
     if not r:
